@@ -206,8 +206,11 @@ class AdaptiveInner(LoopSpec):
         cx.oblige(f'{lab}.three-step-calls', z3.BoolVal(len(q) == 3), 'post')
         if len(q) == 3:
             m = z3.RealVal('1/2') * (t_before + next_t)
-            cx.oblige(f'{lab}.queries=(t,t1),(t,m),(m,t1)', z3.And(q[0][0] == t_before, q[0][1] == next_t, q[1][0] == t_before,
-                                                               q[1][1] == m, q[2][0] == m, q[2][1] == next_t), 'post')
+            # the full step and the two half steps, in any order of evaluation (the order is not part of the property)
+            import itertools as _it
+            want = [(t_before, next_t), (t_before, m), (m, next_t)]
+            cx.oblige(f'{lab}.queries=(t,t1),(t,m),(m,t1)', z3.Or(*[z3.And(*[z3.And(q[i][0] == want[p_[i]][0], q[i][1] == want[p_[i]][1]) for i in range(3)])
+                                                                   for p_ in _it.permutations(range(3))]), 'post')
         cx.oblige(f'{lab}.length>=dt_min-or-clipped', z3.Or(next_t - t_before >= gh.dt_min, next_t == gh.tsN()), 'post')
         cx.oblige(f'{lab}.strictly-advances', next_t > t_before, 'post')
         cx.oblige(f'{lab}.inside', z3.And(next_t <= gh.tsN(), t_before >= gh.ts0()), 'post')
